@@ -3846,14 +3846,13 @@ class Qube(object):
             except (ValueError, TypeError):
                 return None
 
-        else:
-            # Compare units for compatibility
-            if not Units.can_match(self._units_, arg._units_):
-                return None
+        # Compare units for compatibility
+        if not Units.can_match(self._units_, arg._units_):
+            return None
 
-            # Compare item shapes
-            if self._item_ != arg._item_:
-                return None
+        # Compare item shapes
+        if self._item_ != arg._item_:
+            return None
 
         # Check for compatible shapes
         try:
